@@ -51,7 +51,7 @@ struct Layout {
 };
 struct Written {
     std::string bytes;
-    struct ChunkOut { uint64_t start, end, data_page_offset; std::vector<std::pair<uint64_t, uint64_t>> page_bodies; bool has_minmax = false; std::string mn, mx; int64_t nulls = 0; };
+    struct ChunkOut { uint64_t start, end, data_page_offset; std::vector<std::pair<uint64_t, uint64_t>> page_bodies; bool has_minmax = false; std::string mn, mx; int64_t nulls = 0; int stats_mode = 0; };
     std::vector<ChunkOut> chunks;
     uint64_t footer_start = 0;
 };
@@ -186,6 +186,16 @@ static inline void schema_elements(const Node& n, bool is_root, std::vector<TV>&
     for (auto& k : n.kids) schema_elements(k, false, out, lay, r);
 }
 
+// parquet.thrift: min_value/max_value are only defined when FileMetaData.column_orders is written; the deprecated min/max are defined
+// for the signed order only. So: no column_orders -> deprecated fields at most; a column with another order -> new fields at most.
+static inline int effective_stats_mode(int mode, bool column_orders, int order, bool* has_mm) {
+    if (mode == 0) return 0;
+    bool new_ok = column_orders, old_ok = order == 0;
+    if (!new_ok && !old_ok) { *has_mm = false; return mode; }
+    if (!new_ok) return 2;
+    if (!old_ok) return 1;
+    return mode;
+}
 static inline TV stats_struct(int mode, bool has_mm, const std::string& mn, const std::string& mx, int64_t nulls) {
     TV s = TV::Struct();
     if (has_mm && (mode == 2 || mode == 3)) { s.add(1, TV::Bin(mx)); s.add(2, TV::Bin(mn)); }
@@ -316,7 +326,7 @@ static inline Written write_file(const Table& t, const Layout& lay) {
                     int lvl_tag = legacy_bitpacked ? 4 : 3;
                     H.add(1, TV::I32(0));
                     TV DH = TV::Struct(); DH.add(1, TV::I32((int64_t)pe)); DH.add(2, TV::I32(enc)); DH.add(3, TV::I32(lvl_tag)); DH.add(4, TV::I32(lvl_tag));
-                    if (L.page_stats) { std::string mn, mx; bool mm = min_max(col.type, ch.vals, v0, v1, &mn, &mx, 0, &col); if (mm && mn.size() + mx.size() > 1200) mm = false; DH.add(5, stats_struct(col.order ? 1 : L.chunk_stats ? L.chunk_stats : 1, mm, mn, mx, (int64_t)(pe - nn))); }      // the deprecated min/max fields are defined for the signed order only
+                    if (L.page_stats) { std::string mn, mx; bool mm = min_max(col.type, ch.vals, v0, v1, &mn, &mx, 0, &col); if (mm && mn.size() + mx.size() > 1200) mm = false; int em = effective_stats_mode(L.chunk_stats ? L.chunk_stats : 1, lay.column_orders, col.order, &mm); DH.add(5, stats_struct(em, mm, mn, mx, (int64_t)(pe - nn))); }      // the deprecated min/max fields are defined for the signed order only
                     if (lay.junk_fields && r.below(4) == 0) add_junk(DH, r);
                     H.add(5, DH);
                     if (lay.junk_fields && r.below(4) == 0) add_junk(H, r);
@@ -341,7 +351,7 @@ static inline Written write_file(const Table& t, const Layout& lay) {
             // without dictionary_page_offset the chunk is located by data_page_offset, which then points at its first page (the dictionary page)
             M.add(9, TV::I64((int64_t)((use_dict && !L.dict_offset_present) ? co.start : co.data_page_offset)));
             if (use_dict && L.dict_offset_present) M.add(11, TV::I64((int64_t)co.start));
-            if (L.chunk_stats) M.add(12, stats_struct(col.order ? 1 : L.chunk_stats, co.has_minmax, co.mn, co.mx, co.nulls));
+            if (L.chunk_stats) { int em = effective_stats_mode(L.chunk_stats, lay.column_orders, col.order, &co.has_minmax); co.stats_mode = em; M.add(12, stats_struct(em, co.has_minmax, co.mn, co.mx, co.nulls)); }
             if (lay.junk_fields && r.below(3) == 0) add_junk(M, r);
             TV CC = TV::Struct();
             CC.add(2, TV::I64(L.file_offset_mode == 0 ? 0 : L.file_offset_mode == 1 ? (int64_t)co.start : (int64_t)co.end));
